@@ -381,6 +381,9 @@ type World struct {
 	dec         *beacon.ForkDecoder
 	gvr         common.Root
 	genesisTime common.Timestamp
+	// modelRoot: the state root the specification model gives a block on a pre-state (set by the
+	// simulation when the model is in use)
+	modelRoot func(pre *stateBox, env *common.BeaconBlockEnvelope) (common.Root, error)
 
 	blocks  map[common.Root]*blockRec
 	order   []*blockRec
@@ -1070,7 +1073,25 @@ func (w *World) produce(parent *blockRec, slot uint64) (*blockRec, error) {
 		return nil, err
 	}
 	if err := common.PostSlotTransition(ctx, w.spec, post.epc, post.st, env, false); err != nil {
-		return nil, fmt.Errorf("honest block refused at slot %d (fork %d, kinds %b): %v", slot, fidx, kinds, err)
+		refusal := fmt.Errorf("honest block refused at slot %d (fork %d, kinds %b): %v", slot, fidx, kinds, err)
+		// zrnt cannot give this block its state root; if the MODEL accepts it, the block still exists
+		// (with the model's root) as a base for byzantine variants
+		if w.modelRoot != nil {
+			if root, merr := w.modelRoot(pre, env); merr == nil {
+				env.StateRoot = root
+				env.BlockRoot = env.BeaconBlockHeader.HashTreeRoot(tree.GetHashFn())
+				propDom := domainFor(fork, w.gvr, common.DOMAIN_BEACON_PROPOSER, common.Epoch(epoch))
+				env.Signature = w.keys.sign(pkey, signingRoot(env.BlockRoot, propDom))
+				if signed, serr := beacon.EnvelopeToSignedBeaconBlock(env); serr == nil {
+					var buf bytes.Buffer
+					if signed.Serialize(w.spec, codec.NewEncodingWriter(&buf)) == nil {
+						orphan := &blockRec{root: env.BlockRoot, parent: parent.root, slot: slot, env: env, signed: signed, bytes: buf.Bytes(), digest: env.ForkDigest, kinds: kinds}
+						return nil, &refusedHonest{refusal, orphan}
+					}
+				}
+			}
+		}
+		return nil, refusal
 	}
 	env.StateRoot = post.st.HashTreeRoot(tree.GetHashFn())
 	env.BlockRoot = env.BeaconBlockHeader.HashTreeRoot(tree.GetHashFn())
@@ -1093,6 +1114,15 @@ func (w *World) produce(parent *blockRec, slot uint64) (*blockRec, error) {
 	}
 	return rec, nil
 }
+
+// refusedHonest: zrnt refused a block the harness built to be valid; orphan is that block with the
+// state root computed by the model (it is in no store and has no zrnt post-state).
+type refusedHonest struct {
+	err    error
+	orphan *blockRec
+}
+
+func (r *refusedHonest) Error() string { return r.err.Error() }
 
 // samePeriod: slots a and b are served by the same current sync committee
 func (w *World) samePeriod(a, b uint64) bool {
